@@ -247,15 +247,6 @@ func (s *ProxyServer) serveRead(w http.ResponseWriter, r *http.Request) {
 		return
 	}
 
-	// Lookup our database that we use for TXID tracking.
-	// If the database hasn't been created yet, just send to target.
-	db := s.store.DB(s.DBName)
-	if db == nil {
-		s.logf("proxy: %s %s: no database %q, proxying to target", r.Method, r.URL.Path, s.DBName)
-		s.proxyToTarget(w, r, false)
-		return
-	}
-
 	// Wait for database to catch up to TXID.
 	ticker := time.NewTicker(s.PollTXIDInterval)
 	defer ticker.Stop()
@@ -266,7 +257,15 @@ func (s *ProxyServer) serveRead(w http.ResponseWriter, r *http.Request) {
 	var pos ltx.Pos
 LOOP:
 	for {
-		if pos = db.Pos(); pos.TXID >= txid {
+		// Lookup our database that we use for TXID tracking. If the database
+		// hasn't been created yet on the primary, just send to target. A replica
+		// that has not received the database yet has not reached the TXID either.
+		if db := s.store.DB(s.DBName); db == nil {
+			if s.store.IsPrimary() {
+				s.logf("proxy: %s %s: no database %q, proxying to target", r.Method, r.URL.Path, s.DBName)
+				break LOOP
+			}
+		} else if pos = db.Pos(); pos.TXID >= txid {
 			s.logf("proxy: %s %s: database %q at txid %s, proxying to target", r.Method, r.URL.Path, s.DBName, pos.TXID.String())
 			break LOOP
 		}
